@@ -86,7 +86,9 @@ def open_circuit_impedance(network: Network, node1: str, node2: str, node_index_
         node1, node2 = node2, node1
     network = trf.switch_ground_node(network=network, new_ground=node2)
     A = nodal_analysis_coefficient_matrix(network, node_mapper=node_index_mapper)
-    connected = np.where(A.any(axis=0))[0]
+    connected = [node_index_mapper(network)[node1]]
+    while len(grown := np.union1d(connected, np.flatnonzero(A[:, connected].any(axis=1)))) > len(connected):
+        connected = grown
     Z = np.linalg.inv(A[np.ix_(connected, connected)])
     i1 = list(connected).index(node_index_mapper(network)[node1])
     return Z[i1][i1]
